@@ -322,7 +322,7 @@ def failer(ctx, case, prefix=""):
     return fail
 
 
-def gen_tied_case(rng, i, nsg=None):
+def gen_tied_case(rng, i, nsg=None, extras=True):
     """tied-constant models x recipes assigning equal / different / no quantization to the sharers"""
     if i % 6 == 5:
         # only scalar constants are tied; the rules cover one operator type at a time (so that only one sharer is requested)
@@ -335,7 +335,7 @@ def gen_tied_case(rng, i, nsg=None):
         cmds = [{"k": "add", "regex": ".*", "operation": op, "cfg": pl.UNIFORM[rng.choice(["a8w8", "a8sw8t", "a16w8"])],
                  "alg": "min_max_uniform_quantize"} for op in rng.sample(kinds, rng.randint(1, len(kinds)))]
         return Case(mb, info, cmds=cmds, data=data, desc=[(c["regex"], c["operation"], c["alg"]) for c in cmds])
-    mb, info = gm.gen_tied(rng, nsg=nsg)
+    mb, info = gm.gen_tied(rng, nsg=nsg, extras=extras)
     data = gm.random_inputs(mb, rng, n=1)
     names = [n for sc in pl.scopes_of(mb) for n in sc.split(";") if n]
     r = rng.random()
